@@ -308,6 +308,16 @@ def points_operations(S):
     S.ensure("pow-keeps-space", keys(S.getattr(pw, "space")) == ["x"])
     S.forall("pow-elementwise", pw.f["_t"], lambda q: zreal(pt_.at(q)) == tlib._POW(zreal(A.val.at(q)), zreal(A3.val.at(q))))
     S.ensure_raises("pow-and-division-reject-other-space", lambda: I.binop(ast.Pow(), a, b), "AssertionError")
+    # Points with ZERO rows over a real space (e.g. a selection with an all-False mask) are not 'the empty Points':
+    # they keep their space through join / joined / | like any other Points
+    z_x = S.new(P, S.tensor("ZX", [0, 2]), S.new(RN, "x", 2))
+    z_t = S.new(P, S.tensor("ZT", [0, 1]), S.new(RN, "t", 1))
+    S.ensure("zero-row-points-over-a-real-space-are-not-the-empty-points", not I.truth(S.getattr(z_x, "isempty")))
+    zj = S.method(z_x, "join", z_t)
+    S.ensure("join-of-zero-row-points-keeps-both-variables", keys(S.getattr(zj, "space")) == ["x", "t"] and tensor_of(zj).rank == 2 and tensor_of(zj).shape[1].concrete() == 3 and tensor_of(zj).shape[0].concrete() == 0)
+    zjj = S.outcome(lambda: S.call(S.getattr(S.find(P), "joined"), z_x, z_t))
+    S.ensure("joined-of-zero-row-points-keeps-both-variables", zjj[0] == "ok" and keys(S.getattr(zjj[1], "space")) == ["x", "t"])
+    S.ensure_raises("row-concatenation-of-zero-row-points-of-another-space-is-rejected", lambda: I.binop(ast.BitOr(), z_t, a), "AssertionError")
     # iteration over the first batch axis: item i is row i as a Points object over the same space
     two, TWO, sp2 = mk_points(S, [("x", 1), ("t", 1)], 2, "TWO")
     items = list(I.iterate(two))
